@@ -467,6 +467,122 @@ pub fn gen(prop: &str, tier: &str, seed: u64) -> Out {
                 o.push(format!("tostrcheck {} -", hex(&ov.to_vec())));
             }
         }
+        "C02" => {
+            use crate::gen_text::*;
+            let fc = c.clone();
+            for _ in 0..scale(tier, 1200, 40000) {
+                let v = gen_value(&mut r, &fc, 0);
+                if has_nan(&v) { continue; }
+                o.doc_stats(&v);
+                let want = show_value(&denoted(&v));
+                for st in [Style::Strict, Style::Lenient] {
+                    let mut t = String::new();
+                    render_json(&mut r, &v, st, &mut t);
+                    o.push(format!("jparse {}", hex(t.as_bytes())));
+                    o.push(format!("jexpect {} {}", hex(t.as_bytes()), want));
+                    if st == Style::Strict { o.push(format!("spec:jparse {}", hex(t.as_bytes()))); o.stat("text:strict"); } else { o.stat("text:lenient"); }
+                    for _ in 0..3 {
+                        let x = corrupt(&mut r, t.as_bytes());
+                        o.push(format!("jparse {}", hex(&x)));
+                        o.push(format!("spec:jparse {}", hex(&x)));
+                        o.stat("text:corrupted");
+                    }
+                }
+            }
+            let tricky: &[&[u8]] = &[b"\"\\u", b"\"\\uD800\\u", b"\"\\u{12", b"\"\\ud800A\"", b"\"\\uD800\\u0041\"", b"\"\\uDC00\"", b"\"\\uD83D\\uDE00\"", b"\"\\u{D83D}\\u{DE00}\"",
+                b"-0", b"-", b"01", b"1.", b".5", b"1e", b"1e+", b"1E400", b"-1e400", b"1e-400", b"18446744073709551615", b"18446744073709551616", b"-9223372036854775808", b"-9223372036854775809",
+                b"0.1e1", b"123456789012345678901234567890", b"2.2250738585072011e-308", b"4.9e-324", b"2.4703282292062327e-324", b"2.4703282292062328e-324", b"9007199254740993", b"9007199254740993.0",
+                b"[1,]", b"[,1]", b"{\"a\":1,}", b"{\"a\" 1}", b"{a:1}", b"{\"a\":1 \"b\":2}", b"nul", b"truee", b"[1 2]", b"\x0c1", b"\\n1\\t", b"\\x0C[\\r]", b"\\x0c1", b"\"\x01\"", b"\"\xff\"", b"\"\xc3\"", b"{\"a\":1,\"a\":2}", b"", b" ", b"[", b"]", b"{\"", b"\"\\", b"\"\\x\""];
+            for t in tricky {
+                for k in 0..=t.len() { o.push(format!("jparse {}", hex(&t[..k]))); o.push(format!("spec:jparse {}", hex(&t[..k]))); }
+            }
+            for _ in 0..scale(tier, 1500, 50000) {
+                let s = soup(&mut r, &["{", "}", "[", "]", ",", ":", "\"", "\\", "u", "1", "0", "-", ".", "e", "t", "true", "null", "false", " ", "\\n", "a", "\"a\"", "\\u00", "D8", "{}", "[]"], 10);
+                o.push(format!("jparse {}", hex(s.as_bytes())));
+                o.push(format!("spec:jparse {}", hex(s.as_bytes())));
+                o.stat("text:soup");
+            }
+        }
+        "C09" => {
+            use crate::gen_text::*;
+            for _ in 0..scale(tier, 3000, 80000) {
+                let (t, canon) = gen_jsonpath(&mut r);
+                o.push(format!("jpparse {}", hex(t.as_bytes())));
+                o.push(format!("jpexpect {} {}", hex(t.as_bytes()), canon));
+                // truncations / corruptions of accepted text
+                let x = corrupt(&mut r, t.as_bytes());
+                o.push(format!("jpparse {}", hex(&x)));
+                if r.chance(1, 4) { let k = r.below(t.len() as u64 + 1) as usize; o.push(format!("jpparse {}", hex(&t.as_bytes()[..k.min(t.len())]))); }
+                let p = gen_plain_jsonpath(&mut r);
+                o.push(format!("jproundtrip {}", hex(p.as_bytes())));
+                o.push(format!("jproundtrip {}", hex(t.as_bytes())));
+                o.push(format!("jpparse {}", hex(p.as_bytes())));
+            }
+            for _ in 0..scale(tier, 2000, 60000) {
+                let s = soup(&mut r, PATH_TOKENS, 8);
+                o.push(format!("jpparse {}", hex(s.as_bytes())));
+            }
+            for t in ["$.\"abc", "$.\"", "$?(@ == \"\")", "$?(@ == 1.5)", "$?(@ == -1.5)", "$?(@ > 1e3)", "$[last+-2147483648]", "$[last-2147483648]", "$[last - 2147483649]", "$[2147483648]", "$.a + 3", "-$.a", "5 + 5", "$.\"a\\u", "$.a\\u00"] {
+                o.push(format!("jpparse {}", hex(t.as_bytes())));
+                o.push(format!("jproundtrip {}", hex(t.as_bytes())));
+            }
+        }
+        "C16" => {
+            use crate::gen_text::*;
+            for _ in 0..scale(tier, 3000, 80000) {
+                let (t, canon) = gen_keypath_text(&mut r);
+                o.push(format!("kpparse {}", hex(t.as_bytes())));
+                o.push(format!("kpexpect {} {}", hex(t.as_bytes()), canon));
+                o.push(format!("kproundtrip {}", hex(t.as_bytes())));
+                let x = corrupt(&mut r, t.as_bytes());
+                o.push(format!("kpparse {}", hex(&x)));
+                let k = r.below(t.len() as u64 + 1) as usize;
+                if t.is_char_boundary(k) { o.push(format!("kpparse {}", hex(&t.as_bytes()[..k]))); }
+            }
+            for _ in 0..scale(tier, 1500, 40000) {
+                let s = soup(&mut r, &["{", "}", ",", "\"", "\\", "a", "1", "-", " ", "\\u00", "u", "+", "12", "\"b\"", "\t", "é"], 8);
+                o.push(format!("kpparse {}", hex(s.as_bytes())));
+            }
+            for t in ["{\"abc", "{\"\"}", "{", "}", "{}", " { } ", "{a", "{1,}", "{,}", "{-}", "{+1}", "{2147483648}", "{-2147483649}", "{a\\", "{\"a\\\"}", "{a,\"b\",-2}x"] {
+                o.push(format!("kpparse {}", hex(t.as_bytes())));
+            }
+        }
+        "C08" | "C15" => {
+            use crate::gen_text::*;
+            for _ in 0..scale(tier, 1200, 30000) {
+                let v = gen_value(&mut r, &c, 0);
+                o.doc_stats(&v);
+                let d = hex(&v.to_vec());
+                for _ in 0..3 {
+                    let path = if r.chance(4, 5) { gen_doc_path(&mut r, &v) } else { gen_jsonpath(&mut r).0 };
+                    let ph = hex(path.as_bytes());
+                    if prop == "C15" {
+                        o.push(format!("modes {} {}", d, ph));
+                        let pre = gen_prefix(&mut r, &c);
+                        o.push(format!("select {} {} {} {}", r.pick(&["first", "array", "all", "mixed"]), pre, d, ph));
+                        continue;
+                    }
+                    let pre = gen_prefix(&mut r, &c);
+                    for m in ["all", "first", "array", "mixed"] {
+                        o.push(format!("select {} {} {} {}", m, pre, d, ph));
+                        o.push(format!("spec:select {} {} {} {}", m, pre, d, ph));
+                    }
+                    o.push(format!("pexists {} {}", d, ph)); o.push(format!("spec:pexists {} {}", d, ph));
+                    o.push(format!("pmatch {} {}", d, ph)); o.push(format!("spec:pmatch {} {}", d, ph));
+                    o.push(format!("getpath {} {} {}", pre, d, ph));
+                    o.push(format!("pathexists {} {}", d, ph));
+                }
+            }
+            // scalar roots, empty containers, the repaired cases
+            for (doc, path) in [("5", "$ > 1"), ("5", "$?(@ > 1)"), ("5", "$[*]?(@ > 1)"), ("[5]", "$[*]?(@ > 1)"), ("5", "$"), ("\"a\"", "$[*]"), ("[]", "$[*]"), ("{}", "$.*"), ("[1,2,3]", "$[last + 2147483647]"), ("[1,2,3]", "$[last - 2147483648 to last]"), ("{\"a\":1}", "$?(@.a + 1)"), ("{\"a\":1}", "$.a + 3"), ("[1,[2,3]]", "$[*][*]"), ("null", "$ == null"), ("[1,2]", "$[0, 0, last]"), ("{\"a\":{\"b\":[1,2]}}", "$.a?(exists(@.b?(@[*] > 1)))")] {
+                let v = jsonb::parse_value(doc.as_bytes()).unwrap();
+                let d = hex(&v.to_vec()); let ph = hex(path.as_bytes());
+                if prop == "C15" { o.push(format!("modes {} {}", d, ph)); continue; }
+                for m in ["all", "first", "array", "mixed"] { o.push(format!("select {} - {} {}", m, d, ph)); o.push(format!("spec:select {} - {} {}", m, d, ph)); }
+                o.push(format!("pmatch {} {}", d, ph)); o.push(format!("spec:pmatch {} {}", d, ph));
+                o.push(format!("pexists {} {}", d, ph)); o.push(format!("spec:pexists {} {}", d, ph));
+            }
+        }
         "C17" => {
             for _ in 0..scale(tier, 1200, 40000) {
                 let v = gen_value(&mut r, &c, 0);
